@@ -307,6 +307,179 @@ class ReadVarData(ReadUamiv):
         return ReadUamiv.real(self, inputs)
 
 
+class ReadOne3d(Obligation):
+    """generic 3-D met record reader (camxfiles/one3d/Read.py) on a symbolic
+    record file: layer count, step count, time sequence, record positions
+    and (concrete rows x cols) the origin of every cell of the variable"""
+    mode = 'int'
+    validate_paths = 3
+    max_paths = 400
+    stubs = ReadUamiv.stubs + (
+        'FortranFileUtil.read_into (fills the destination with the symbolic '
+        'offset of the record it was positioned on)',)
+    any_violation_confirms = True
+
+    def __init__(self, nz, T, rows, cols, step=100):
+        self.nz, self.T, self.rows, self.cols = nz, T, rows, cols
+        self.step = step
+        self.name = 'read-one3d[nz=%d,T=%d,rows=%d,cols=%d,step=%d]' % (
+            nz, T, rows, cols, step)
+        self.bounds = {'nz': nz, 'T': T, 'rows': rows, 'cols': cols,
+                       'step (HHMM)': step,
+                       'start': 'any day 1..300 of any year, any hour'}
+        self._space = None
+
+    def space(self):
+        if self._space is None:
+            self._space = loader.TwinSpace(objfloat=True, stubs={
+                'PseudoNetCDF.pncwarn': common.warn_stub(common.WarnRec())})
+            ffu = self._space.twin('PseudoNetCDF.camxfiles.FortranFileUtil')
+            ffu.unpack_from_file = lambda fmt, f: f.model_unpack(fmt)
+
+            def read_into(rf, dest, id_fmt, data_fmt='f'):
+                dest[...] = rf.record_start
+                return None
+            ffu.read_into = read_into
+            rd = self._space.twin('PseudoNetCDF.camxfiles.one3d.Read')
+            if 'read_into' in rd.__dict__:
+                rd.read_into = read_into
+        return self._space
+
+    def _layout(self, ctx):
+        date0 = ctx.int('date0', 1001, 99300)
+        h0 = ctx.int('h0', 0, 23)
+        ctx.assume(date0.e % 1000 >= 1, check=False)
+        ctx.assume(date0.e % 1000 <= 300, check=False)
+        return layouts.One3dLayout(self.nz, self.T, self.rows * self.cols,
+                                   date0, h0 * 100, self.step)
+
+    def sym(self, ctx, h):
+        sp = self.space()
+        Read = sp.twin('PseudoNetCDF.camxfiles.one3d.Read')
+        lay = self._layout(ctx)
+        f = layouts.SymFile(ctx, lay)
+        f.eof_raises = True
+        import sys
+        sys.setprofile(sp.profile())
+        try:
+            try:
+                rd = Read.one3d(f, self.rows, self.cols)
+            except Exception as ex:
+                h.candidate('open-raised:' + type(ex).__name__,
+                            repr(ex)[:200])
+                return
+            h.claim('layers', symx._b(rd.nlayers == self.nz))
+            h.claim('step-count', symx._b(rd.time_step_count == self.T))
+            h.claim('cells', symx._b(rd.cell_count == self.rows * self.cols))
+            h.observe('T', rd.time_step_count)
+            times = []
+            it = rd.timerange()
+            for _ in range(self.T + 2):
+                try:
+                    times.append(next(it))
+                except StopIteration:
+                    break
+            h.claim('time-iteration-terminates',
+                    z3.BoolVal(len(times) == self.T))
+            for ti, (d, t) in enumerate(times[:self.T]):
+                h.claim('time[%d]' % ti, z3.And(
+                    symx._b(d == lay.times[ti][0]),
+                    symx._b(t == lay.times[ti][1])))
+            try:
+                v = rd.variables[rd.var_name]
+            except Exception as ex:
+                h.candidate('var:raised:' + type(ex).__name__, repr(ex)[:160])
+                return
+            want = (self.T, self.nz, self.rows, self.cols)
+            h.claim('var:shape', z3.BoolVal(tuple(v.shape) == want))
+            if tuple(v.shape) != want:
+                return
+            arr = np.asarray(v)
+            for ti in range(self.T):
+                for k in range(self.nz):
+                    cells = [symx._b(arr[ti, k, j, i] ==
+                                     lay.data_record(ti, k + 1))
+                             for j in range(self.rows)
+                             for i in range(self.cols)]
+                    h.claim('var:from-record[t=%d,k=%d]' % (ti, k + 1),
+                            z3.And(*cells))
+        finally:
+            sys.setprofile(None)
+
+    def real(self, inputs):
+        """independent encoder -> both readers"""
+        import os
+        import tempfile
+        import warnings
+        date0 = int(frac_of(inputs.get('date0', 2001)))
+        h0 = int(frac_of(inputs.get('h0', 0)))
+        lay = layouts.One3dLayout(self.nz, self.T, self.rows * self.cols,
+                                  date0, h0 * 100, self.step)
+        viol = {}
+        d = tempfile.mkdtemp(prefix='verif_c13_')
+        path = os.path.join(d, 'f.one3d')
+        try:
+            data = lay.write_real(path, self.rows, self.cols)
+            with warnings.catch_warnings():
+                warnings.simplefilter('ignore')
+                from PseudoNetCDF.camxfiles.one3d.Read import one3d as RD
+                from PseudoNetCDF.camxfiles.one3d.Memmap import one3d as MM
+                mv = None
+                try:
+                    mm = MM(path, self.rows, self.cols)
+                    mv = np.asarray(mm.variables['UNKNOWN'])
+                    mt = np.asarray(mm.variables['TFLAG'])[:, 0, :]
+                except Exception as ex:
+                    viol['memmap-raised'] = repr(ex)[:200]
+                try:
+                    rd = RD(path, self.rows, self.cols)
+                except Exception as ex:
+                    viol['open-raised:' + type(ex).__name__] = repr(ex)[:200]
+                    rd = None
+                if rd is not None:
+                    if rd.time_step_count != self.T:
+                        viol['step-count'] = 'Read reports %r steps, file ' \
+                            'has %d' % (rd.time_step_count, self.T)
+                    if rd.nlayers != self.nz:
+                        viol['layers'] = 'Read reports %r layers, file has ' \
+                            '%d' % (rd.nlayers, self.nz)
+                    try:
+                        rv = np.asarray(rd.variables['UNKNOWN'])
+                        if rv.shape != data.shape or \
+                                not np.array_equal(rv, data):
+                            viol['var:from-record[t=*,k=*]'] = \
+                                'record reader data differ from the ' \
+                                'encoded data'
+                        if mv is not None and (
+                                mv.shape != rv.shape or
+                                not np.array_equal(mv, rv)):
+                            viol['readers-differ'] = \
+                                'memmap and record readers differ'
+                    except Exception as ex:
+                        viol['var:raised:' + type(ex).__name__] = \
+                            repr(ex)[:200]
+                    ts = list(rd.timerange())
+                    if len(ts) != self.T:
+                        viol['time-iteration-terminates'] = \
+                            '%d times iterated' % len(ts)
+                    elif mv is not None:
+                        for ti, (dd, tt) in enumerate(ts):
+                            y2 = int(dd) // 1000
+                            yyyy = (1900 if y2 >= 70 else 2000) + y2
+                            exp = (yyyy * 1000 + int(dd) % 1000,
+                                   int(tt) * 100)
+                            if (int(mt[ti, 0]), int(mt[ti, 1])) != exp:
+                                viol['time[%d]' % ti] = \
+                                    'memmap TFLAG %r, record reader %r' % (
+                                        mt[ti].tolist(), (dd, tt))
+        finally:
+            for fn in os.listdir(d):
+                os.remove(os.path.join(d, fn))
+            os.rmdir(d)
+        return {'obs': {'T': self.T}, 'violations': viol,
+                'file': {'date0': date0, 'h0': h0}}
+
+
 def obligations(tier):
     obs = []
     Ts = (1, 2, 3) if tier == 'quick' else (1, 2, 3, 4, 5)
@@ -329,4 +502,13 @@ def obligations(tier):
     for name in ('AVERAGE', 'EMISSIONS'):
         for g in grids:
             obs.append(ReadVarData(*g, name=name.ljust(10)))
+    # generic 3-D met files (no header: structure discovered by scanning)
+    one = [(1, 2, 1, 1), (2, 2, 1, 2), (2, 3, 2, 1), (3, 2, 2, 2),
+           (1, 4, 1, 1, 1200), (2, 3, 1, 2, 600), (1, 6, 1, 1, 1200)]
+    if tier == 'thorough':
+        one += [(1, 4, 1, 1), (2, 4, 2, 2), (3, 3, 1, 3), (4, 2, 1, 1),
+                (1, 8, 1, 1, 600), (1, 30, 1, 1), (2, 5, 1, 1, 1200),
+                (1, 3, 1, 1, 2400)]
+    for g in one:
+        obs.append(ReadOne3d(*g))
     return obs
